@@ -12,7 +12,7 @@ META = {
         "AbstractLatentCond.rescale_noise", "cholesky_util.revert_conditional", "cholesky_util.sum_of_sqrtm_factors",
         "cholesky_util.triu_via_qr", "backend.linalg.qr_r/solve_triu/solve_tril",
         "{Dense,Isotropic,BlockDiag}Normal.std/residual_whitened_rms_flat/rescale_cholesky/"
-        "to_multivariate_normal/identity_conditional/logpdf_flat",
+        "to_multivariate_normal/identity_conditional/logpdf_flat/to_derivative",
     ],
     "bounds": {"quick": "n<=2 coefficients, k<=2 observed rows, d<=2; all operands symbolic reals, scalings >0",
                "thorough": "n<=3, k<=3, d<=2"},
@@ -42,6 +42,8 @@ def cases(tier):
         for (n, k, d) in sizes[ssm][:1] + ([sizes[ssm][-1]] if tier == "thorough" else []):
             for op in OPS_RV:
                 out.append(f"{ssm}/{op}/n{n}k{k}d{d}")
+        out.append(f"{ssm}/to_derivative0/n2k1d2")
+        out.append(f"{ssm}/to_derivative1/n2k1d2")
     return sorted(set(out))
 
 
@@ -148,7 +150,7 @@ def build(case_id):
             f = orc.arr(f)
             fd = np.tile(f, k) if ssm == "blockdiag" else np.repeat(f.reshape(1), k * d)
             return {"A": (A, A0), "offset": (b, b0), "cov": (Q, fd[:, None] * Q0 * fd[None, :])}
-    elif op in OPS_RV:
+    elif op in OPS_RV or op.startswith("to_derivative"):
         return build_rv(case_id, ssm, op, n, d, Normal)
     else:
         raise KeyError(op)
@@ -253,6 +255,27 @@ def build_rv(case_id, ssm, op, n, d, Normal):
         return make, goals, {}
     if op == "logpdf":
         return build_logpdf(ssm, n, d, Normal, tf)
+    if op.startswith("to_derivative"):
+        i = int(op[len("to_derivative"):])
+
+        def make(dom):
+            rv = cm.sym_rv(dom, ssm, n, d, "r")
+            x = sym_array(dom, "x", cm.rv_shapes(ssm, n, d)[0])
+            std = sym_array(dom, "sd", () if ssm == "isotropic" else (d,), positive=True)
+            return (lambda rv, x, std: Normal(*rv, tf).to_derivative(i, std).apply_flat(x)), (rv, x, std)
+
+        def goals(args, out, orc):
+            rv, x, std = args
+            m, P = cm.dense_rv(orc, ssm, out, d)
+            xd = cm.embed_vec(orc, ssm, x, d)
+            sd = orc.arr(std)
+            want = orc.zeros((d, d))
+            for a in range(d):
+                s_ = sd[()] if ssm == "isotropic" else sd[a]
+                want[a, a] = s_ * s_
+            return {"observation of Taylor coefficient i: mean": (m, xd[i * d:(i + 1) * d]),
+                    "observation noise: cov = diag(std^2)": (P, want)}
+        return make, goals, {}
     raise KeyError(op)
 
 
